@@ -385,6 +385,8 @@ class MultitaskMultivariateNormal(MultivariateNormal):
                     row_idx = torch.arange(num_rows)[row_idx]
                 if isinstance(col_idx, slice):
                     col_idx = torch.arange(num_cols)[col_idx]
+                # index tensors may hold negative entries
+                row_idx, col_idx = row_idx % num_rows, col_idx % num_cols
                 row_grid, col_grid = torch.meshgrid(row_idx, col_idx, indexing="ij")
                 indices = (row_grid * num_cols + col_grid).reshape(-1)
                 new_cov = self.lazy_covariance_matrix[batch_idx + (indices,)][..., indices]
@@ -392,8 +394,8 @@ class MultitaskMultivariateNormal(MultivariateNormal):
                     mean=new_mean, covariance_matrix=new_cov, interleaved=self._interleaved, validate_args=False
                 )
             else:
-                # row_idx and col_idx have pairs of indices
-                indices = row_idx * num_cols + col_idx
+                # row_idx and col_idx have pairs of indices (ints or index tensors, possibly negative)
+                indices = (row_idx % num_rows) * num_cols + (col_idx % num_cols)
                 new_cov = self.lazy_covariance_matrix[batch_idx + (indices,)][..., indices]
                 return MultivariateNormal(
                     mean=new_mean,
